@@ -696,7 +696,7 @@ fn map_variants(t: &mut Tape) -> (String, Vec<(String, ReadOutcome)>, bool) {
     match t.below(19) {
         16 | 17 | 18 => {
             // an arbitrary (possibly malformed) URL
-            const PARTS: &[&str] = &["%", "%2", "%zz", "%20", "é", "\u{1F600}", "..", "/", ":", "?", "#", " ", "a.js.map", "data:", "data:application/json;base64,", "file://", "\\", "%é", "x"];
+            const PARTS: &[&str] = &["%", "%2", "%zz", "%20", "é", "\u{1F600}", "..", "/", ":", "?", "#", " ", "a.js.map", "data:", "data:application/json;base64,", "file://", "\\", "%é", "x", "data:application/json,", "data:application/json;charset=utf-8,", "%7B%22version%22%3A3%2C%22mappings%22%3A%22AAAA%22%2C%22sources%22%3A%5B%22o.ts%22%5D%7D", "{\"version\":3", "%7", "%F0%9F", "%00"];
             let n = 1 + t.below(6);
             let mut url = String::new();
             for _ in 0..n {
